@@ -20,7 +20,7 @@
    Paths are reversed component lists (see Model/IgnoreScan.v). *)
 From Coq Require Import List Bool Arith String Ascii.
 Import ListNotations.
-From Mv Require Import Model.Entry Model.IgnoreScan.
+From Mv Require Import Model.Entry Model.IgnoreScan Model.IgnoreMutagen.
 Open Scope list_scope.
 
 Section Docker.
@@ -316,6 +316,71 @@ Record dpat := {
   dhits : list rpath       (* the paths this pattern matches, from the real matcher *)
 }.
 Definition dmatch (p : dpat) (q : rpath) : bool := existsb (rpath_eqb q) (dhits p).
+
+(* ---------- pattern preprocessing: from the user's text to (exclusion, cleaned text) ---------- *)
+(* strings.TrimSpace, ASCII white space *)
+Definition is_space (c : ascii) : bool :=
+  let n := nat_of_ascii c in
+  Nat.eqb n 32 || (Nat.leb 9 n && Nat.leb n 13).
+Fixpoint trim_left (s : str) : str :=
+  match s with
+  | c :: t => if is_space c then trim_left t else s
+  | [] => []
+  end.
+Definition trim (s : str) : str := rev (trim_left (rev (trim_left s))).
+
+(* patternmatcher.New on one pattern: TrimSpace, skip if empty, filepath.Clean of
+   the WHOLE text, then a leading '!' makes it an exclusion ("!" alone is an
+   error). None = skipped or rejected. *)
+Definition pm_new (p : str) : option (bool * str) :=
+  let p := trim p in
+  if null p then None
+  else
+    let p := clean p in
+    match p with
+    | c :: rest =>
+      if Ascii.eqb c ch_bang then (if null rest then None else Some (true, rest))
+      else Some (false, p)
+    | [] => None
+    end.
+
+Definition strip_lead_slash (p : str) : str :=
+  match p with
+  | c :: (_ :: _) as rest => if is_slash c then rest else p
+  | _ => p
+  end.
+
+(* MUTAGEN: docker/ignore.go newValidatedPatternMatcher, then New. The negation
+   is split off BEFORE path.Clean and put back afterwards. *)
+Definition mutagen_prep (raw : str) : option (bool * str) :=
+  if existsb (fun c => Ascii.eqb c "\"%char) raw then None      (* escapes disallowed *)
+  else
+    let p := trim raw in
+    if null p then None                                         (* whitespace-only *)
+    else
+      let negated := match p with c :: _ => Ascii.eqb c ch_bang | [] => false end in
+      let p := if negated then trim (tl p) else p in
+      if null p then None                                       (* whitespace-only negated *)
+      else
+        let p := clean p in
+        if str_eqb p [ch_slash] then None                       (* root pattern *)
+        else
+          let p := strip_lead_slash p in
+          pm_new (if negated then ch_bang :: p else p).
+
+(* DOCKER: the .dockerignore reader (buildkit dockerignore.ReadAll, quoted in
+   docker/ignore.go), then New: trim, skip empty lines and comments, split off
+   '!', trim, filepath.Clean, drop a leading '/', put '!' back. *)
+Definition docker_prep (raw : str) : option (bool * str) :=
+  if match raw with c :: _ => Ascii.eqb c "#"%char | [] => false end then None   (* comment line *)
+  else
+  let p := trim raw in
+  if null p then None
+  else
+    let invert := match p with c :: _ => Ascii.eqb c ch_bang | [] => false end in
+    let p := if invert then trim (tl p) else p in
+    let p := if null p then p else strip_lead_slash (clean p) in
+    pm_new (if invert then ch_bang :: p else p).
 
 (* ---------- checkers applied to the implementation's outputs ---------- *)
 Definition pe_eqb (x y : rpath * entry) : bool :=
